@@ -10,6 +10,7 @@ DECIDED = ("R1 Link::delay returns cmp::min(min_latency + sample, max_latency) w
 NOT_DECIDED = "the +-tick numeric window, the latency distribution, 'every message is delivered on a healthy link' as behaviour."
 DECIDED += "; R5 exhaustive scans: take_due and Topology::tick_by"
 DECIDED += "; R6 = C05-R7 (link deliveries are timed on a tokio clock that must not run ahead of virtual time; recorded finding D16)"
+DECIDED += '; R2 also: per-link overrides (top::Link::config) are written only through Link::latency / Link::message_loss; R5 also for_pairs'
 ASSUMPTIONS = ["std::cmp::min / Duration arithmetic behave as documented"]
 
 LAT = "turmoil::config::Latency"
